@@ -383,6 +383,55 @@ pub fn check_cross(e: &E) -> Check {
     Ok(())
 }
 
+/// Conditions on a table with a two-column key whose second key column is
+/// not sorted within the table (rows are in (k1, k2) order): select, update
+/// and delete by one column compared with a literal, either operand order.
+pub fn check_composite(case: &(u8, u8, u8)) -> Check {
+    let (col, lit, swap) = *case;
+    let names = ["k1", "k2", "v"];
+    let cname = names[col as usize % 3];
+    let data: Vec<[i32; 3]> = vec![[1, 1, 5], [1, 2, 0], [1, 3, 1], [2, 1, 1], [2, 2, 2], [2, 3, 0], [3, 1, 3], [3, 2, 1], [3, 3, 2]];
+    let lit = (lit % 4) as i32;
+    let e = if swap % 2 == 0 { E::bin(Bin::Eq, E::Col(cname.into()), E::Lit(V::Int(lit))) } else { E::bin(Bin::Eq, E::Lit(V::Int(lit)), E::Col(cname.into())) };
+    let matches: Vec<bool> = data.iter().map(|r| r[col as usize % 3] == lit).collect();
+    let fresh = || -> Result<Package<Cursor<Vec<u8>>>, Fail> {
+        let mut pkg = Package::create(PackageType::Installer, Cursor::new(Vec::new())).map_err(|x| Fail::new(format!("{P} unexpected-error op=Create"), x.to_string()))?;
+        pkg.create_table("C", vec![Column::build("k1").primary_key().int16(), Column::build("k2").primary_key().int16(), Column::build("v").nullable().int16()]).map_err(|x| Fail::new(format!("{P} unexpected-error op=CreateTable"), x.to_string()))?;
+        pkg.insert_rows(Insert::into("C").rows(data.iter().map(|r| r.iter().map(|x| Value::Int(*x)).collect()).collect())).map_err(|x| Fail::new(format!("{P} unexpected-error op=Insert"), x.to_string()))?;
+        Ok(pkg)
+    };
+    let rows_of = |pkg: &mut Package<Cursor<Vec<u8>>>| -> Result<Vec<[i32; 3]>, Fail> {
+        Ok(pkg
+            .select_rows(Select::table("C"))
+            .map_err(|x| Fail::new(format!("{P} cond-error call=select-after"), x.to_string()))?
+            .map(|r| [r[0].as_int().unwrap_or(i32::MIN), r[1].as_int().unwrap_or(i32::MIN), r[2].as_int().unwrap_or(i32::MIN)])
+            .collect())
+    };
+    // select
+    let mut pkg = fresh()?;
+    let got: Vec<[i32; 3]> = pkg.select_rows(Select::table("C").with(build(&e))).map_err(|x| Fail::new(format!("{P} cond-error call=select"), x.to_string()))?.map(|r| [r[0].as_int().unwrap_or(0), r[1].as_int().unwrap_or(0), r[2].as_int().unwrap_or(0)]).collect();
+    let want: Vec<[i32; 3]> = data.iter().zip(matches.iter()).filter(|(_, m)| **m).map(|(r, _)| *r).collect();
+    if got != want {
+        return Err(Fail::new(format!("{P} cond-wrong call=select-composite"), format!("select from C (key k1, k2) WHERE {}: got {got:?}, expected {want:?}", e.show())));
+    }
+    // delete
+    pkg.delete_rows(Delete::from("C").with(build(&e))).map_err(|x| Fail::new(format!("{P} cond-error call=delete"), x.to_string()))?;
+    let left = rows_of(&mut pkg)?;
+    let want: Vec<[i32; 3]> = data.iter().zip(matches.iter()).filter(|(_, m)| !**m).map(|(r, _)| *r).collect();
+    if left != want {
+        return Err(Fail::new(format!("{P} cond-wrong call=delete-composite"), format!("delete from C (key k1, k2) WHERE {}: rows left {left:?}, expected {want:?}", e.show())));
+    }
+    // update of the non-key column
+    let mut pkg = fresh()?;
+    pkg.update_rows(Update::table("C").set("v", Value::Int(9)).with(build(&e))).map_err(|x| Fail::new(format!("{P} cond-error call=update"), x.to_string()))?;
+    let now = rows_of(&mut pkg)?;
+    let want: Vec<[i32; 3]> = data.iter().zip(matches.iter()).map(|(r, m)| if *m { [r[0], r[1], 9] } else { *r }).collect();
+    if now != want {
+        return Err(Fail::new(format!("{P} cond-wrong call=update-composite"), format!("update C set v = 9 WHERE {}: rows {now:?}, expected {want:?}", e.show())));
+    }
+    Ok(())
+}
+
 fn cross_conditions() -> Vec<E> {
     let mut out = Vec::new();
     for p in ["P.p0", "P.p1", "P.p2", "P.p3", "P.p6"] {
@@ -573,6 +622,23 @@ pub fn run(ctx: &Ctx) -> Report {
     }, &mut st);
     rep.push(v);
 
+    // 6. one column = literal on a table with a composite key
+    let mut comp: Vec<(u8, u8, u8)> = Vec::new();
+    for c in 0..3u8 {
+        for l in 0..4u8 {
+            for sw in 0..2u8 {
+                comp.push((c, l, sw));
+            }
+        }
+    }
+    let v = par_enumerate(ctx, "composite", &comp, |c, st| {
+        st.eval();
+        st.class("composite-key-condition");
+        st.nontrivial(&("composite", *c));
+        check_composite(c)
+    }, &mut st);
+    rep.push(v);
+
     st.exhaustive = Some(true);
     rep.extra.insert("exhaustive_over".into(), json!("all trees of depth <= 1 over 18 operators x 24 leaves; depth-2 trees with one leaf side over 10 leaves"));
     rep.stats = st;
@@ -581,6 +647,9 @@ pub fn run(ctx: &Ctx) -> Report {
 
 pub fn replay(_ctx: &Ctx, doc: &J) -> Check {
     let kind = doc["kind"].as_str().unwrap_or("");
+    if kind == "composite" {
+        return check_composite(&serde_json::from_value(doc["case"].clone()).map_err(|e| Fail::new(format!("{P} bad-replay"), e.to_string()))?);
+    }
     let e: E = serde_json::from_value(doc["case"].clone()).map_err(|e| Fail::new(format!("{P} bad-replay"), e.to_string()))?;
     match kind {
         "tree" => check_tree(&e),
